@@ -336,6 +336,44 @@ fn sequences(tier: &str, seed: u64, mut f: impl FnMut(&[Vec<u8>]) -> bool) {
             }
         }
     }
+    // a few BIG documents: 300 distinct sibling names, 300 attributes, 300 repetitions, nesting depth 40
+    {
+        let mut wide = String::from("<r>");
+        for i in 0..300 {
+            wide.push_str(&format!("<n{i}/>"));
+        }
+        wide.push_str("</r>");
+        let mut wide2 = String::from("<r>");
+        for i in (250..320).rev() {
+            wide2.push_str(&format!("<n{i}>t</n{i}>"));
+        }
+        wide2.push_str("</r>");
+        let mut attrs = String::from("<r><e");
+        for i in 0..300 {
+            attrs.push_str(&format!(" a{i}=\"v\""));
+        }
+        attrs.push_str("/><e a5=\"v\" b1=\"v\" b0=\"v\"/></r>");
+        let mut rep = String::from("<r>");
+        for i in 0..300 {
+            rep.push_str(if i % 50 == 49 { "<p><c/><c/><d/></p>" } else { "<p><c/></p>" });
+        }
+        rep.push_str("</r>");
+        let mut deep = String::new();
+        for i in 0..40 {
+            deep.push_str(&format!("<d{}>", i % 3));
+        }
+        deep.push_str("t");
+        for i in (0..40).rev() {
+            deep.push_str(&format!("</d{}>", i % 3));
+        }
+        let deep = format!("<r>{deep}{deep}</r>");
+        for xs in [vec![wide.clone()], vec![wide.clone(), wide2.clone()], vec![wide2, wide], vec![attrs], vec![rep.clone()], vec![rep, "<r><p/></r>".to_string()], vec![deep]] {
+            let b: Vec<Vec<u8>> = xs.into_iter().map(|x| x.into_bytes()).collect();
+            if f(&b) {
+                return;
+            }
+        }
+    }
     // seeded random WIDE sequences: up to 4 documents, 6 names, 6 attribute names, up to 16 nodes, depth 4
     let mut rngw = Rng(seed ^ 0x41de);
     let nw = if thorough { 20000 } else { 2500 };
@@ -442,7 +480,7 @@ fn search_tree_prop(prop: &str, tier: &str, seed: u64) {
         }
     });
     let _ = found;
-    stats.print("document sequences parse(D1), extend(D2..): exhaustive small forests under a root (names a,b; attribute lists over x,y,z; text/CDATA; both empty-element spellings) as singles, pairs, triples, plus seeded random sequences of 1-3 documents with up to 9 nodes and depth 3; distinct = distinct input texts", &sample);
+    stats.print("document sequences parse(D1), extend(D2..): exhaustive small forests under a root (names a,b; attribute lists over x,y,z; text/CDATA; both empty-element spellings) as singles, pairs, triples, seven big documents (300 distinct siblings / attributes / repetitions, depth 40), seeded random wide sequences (up to 4 documents, 16 nodes, depth 4) and seeded random sequences of 1-3 documents with up to 9 nodes and depth 3; distinct = distinct input texts", &sample);
 }
 
 // ------------------------------------------------------------------------------------------------ C05
